@@ -3,6 +3,10 @@ CONSTANTS
   W = 3
   MaxBits = 5
   MaxShift = 6
+  MoveKeepsSize = FALSE
+  ObserveMoved = TRUE
+  Targets <- Both
+  OtherSeqs <- NoOther
 CONSTRAINT SizeBound
 VIEW absview
 INVARIANTS RepInv ObserversAgree
